@@ -156,18 +156,39 @@ func (c *Ctl) RunUntil(name, point string, k int) stepOutcome {
 	}
 	stable := 0
 	for {
+		var p string
+		var r threadResult
+		got := 0
 		select {
+		case p = <-th.arrive:
+			got = 1
+		case r = <-th.done:
+			got = 2
+		case <-deadline:
+			c.logf("%s blocked (wanted %s#%d)", name, point, k)
+			return stepOutcome{Kind: "blocked"}
 		case <-poll:
-			if q, lw := processQuiet(); q && lw != "" {
-				stable++
-				if stable >= 3 {
-					c.logf("%s blocked in %s (wanted %s#%d)", name, lw, point, k)
-					return stepOutcome{Kind: "blocked", Point: lw}
+			// An arrival (or the end of the thread) that is already pending comes first: a goroutine
+			// parked in the hand-over to the controller is waiting for the controller, not blocked.
+			select {
+			case p = <-th.arrive:
+				got = 1
+			case r = <-th.done:
+				got = 2
+			default:
+				if q, lw := processQuiet(); q && lw != "" {
+					stable++
+					if stable >= 3 {
+						c.logf("%s blocked in %s (wanted %s#%d)", name, lw, point, k)
+						return stepOutcome{Kind: "blocked", Point: lw}
+					}
+				} else {
+					stable = 0
 				}
-			} else {
-				stable = 0
 			}
-		case p := <-th.arrive:
+		}
+		switch got {
+		case 1:
 			stable = 0
 			th.counts[p]++
 			if p == point && th.counts[p] >= k {
@@ -179,13 +200,10 @@ func (c *Ctl) RunUntil(name, point string, k int) stepOutcome {
 				c.logf("%s@%s#%d", name, p, th.counts[p])
 			}
 			th.resume <- struct{}{}
-		case r := <-th.done:
+		case 2:
 			th.fin, th.res = true, r
 			c.logf("%s done", name)
 			return stepOutcome{Kind: "done"}
-		case <-deadline:
-			c.logf("%s blocked (wanted %s#%d)", name, point, k)
-			return stepOutcome{Kind: "blocked"}
 		}
 	}
 }
